@@ -115,6 +115,35 @@ def check_grid(res, par, order):
         elif np.any(th < 0) or np.any(th > np.pi) or np.any(np.abs(ph) > np.pi):
             bad = ("spherical angle ranges", {})
     if bad is None:
+        # the stored spherical arrays belong to THIS grid (not to an earlier
+        # one with the same N and spacing): compare with exact coordinates
+        ex = [np.array([float(Fraction(par[c + 'min']) + i * Fraction(par['d' + c]))
+                        for i in range(N[a])]) for a, c in enumerate('xyz')]
+        X, Y, Z = np.meshgrid(*ex, indexing='ij')
+        R = np.sqrt(X * X + Y * Y + Z * Z)
+        sc = max(R.max(), 1e-300)
+        if np.abs(fd.r - R).max() > 1e-12 * sc:
+            bad = ("fd.r is not the radius of this grid", {"err": float(np.abs(fd.r - R).max())})
+        else:
+            xx, yy, zz = fd.spherical_to_cartesian(fd.r, fd.theta, fd.phi)
+            err = max(np.abs(xx - X).max(), np.abs(yy - Y).max(), np.abs(zz - Z).max())
+            if not err <= 1e-6 * sc:
+                bad = ("fd.theta / fd.phi do not describe this grid", {"err": float(err)})
+            elif not (np.array_equal(fd.spherical_coords[0], fd.r)):
+                bad = ("spherical_coords[0] is not r", {})
+        if bad is None:
+            # points exactly on an axis: the angles are exact there
+            on_z = (fd.x == 0) & (fd.y == 0) & (fd.z != 0)
+            if np.any(on_z):
+                t = fd.theta[on_z]
+                if not np.all((t == 0) | (np.abs(t - np.pi) < 4e-16)):
+                    bad = ("theta not exactly 0/pi on the z axis", {"theta": float(np.abs(np.minimum(t, np.pi - t)).max())})
+            on_y0 = (fd.y == 0) & (fd.x != 0)
+            if bad is None and np.any(on_y0):
+                pch = np.abs(fd.phi[on_y0])
+                if not np.all((pch == 0) | (np.abs(pch - np.pi) < 4e-16)):
+                    bad = ("phi not exactly 0/pi for y = 0", {})
+    if bad is None:
         m = order // 2
         for dim in (1, 2, 3):
             f = np.arange(float(np.prod(N[:dim]))).reshape(N[:dim])
@@ -206,6 +235,15 @@ def run_case(spec):
                 par[c + 'max'] = par[c + 'min'] + par['N' + c] * par['d' + c]
                 par['L' + c] = par['N' + c] * par['d' + c]
         check_grid(res, par, order)
+        if rng.random() < 0.3:
+            # a second grid with the same N and spacing but another origin,
+            # built right after the first one in the same process
+            par_b = dict(par)
+            for c in 'xyz':
+                par_b[c + 'min'] = par[c + 'min'] + float(rng.choice([0.5, -1.25, 3.0])) * par['d' + c] * (1 + int(rng.integers(3)))
+                if c + 'max' in par_b:
+                    par_b[c + 'max'] = par_b[c + 'min'] + par_b['N' + c] * par_b['d' + c]
+            check_grid(res, par_b, order)
         if todo and i % (spec['n'] // todo) == 0:
             # consumers need room for the stencils: at least 3p/2+1 points
             n0 = 3 * order // 2 + 1
